@@ -22,7 +22,14 @@ func runSessions(r *core.Run) {
 		echoed += checkSession(r, sc, meta)
 	}
 	r.Extra["session_db_errors_relayed_with_values"] = echoed
+	if os.Getenv("VERIF_C16_TIMING") != "" {
+		for s := range sitesSeen {
+			fmt.Fprintf(os.Stderr, "SITE %s\n", s)
+		}
+	}
 }
+
+var sitesSeen = map[string]bool{}
 
 // checkSession runs one script and judges its outcome; returns the number of value-quoting database errors that
 // reached the client.
@@ -43,6 +50,10 @@ func checkSession(r *core.Run, sc *Script, meta *sessMeta) int {
 	}
 	if os.Getenv("VERIF_C16_TIMING") != "" {
 		fmt.Fprintf(os.Stderr, "session %s steps=%v ms=%v\n", sc.Dialect, o.Steps, o.StepMs)
+	}
+	for _, s := range o.Sites {
+		sitesSeen[s] = true
+		checkSite(r, sc, s)
 	}
 	if o.Panic != "" {
 		r.Tag("session-panic")
@@ -77,9 +88,33 @@ func hitClass(sc *Script, meta *sessMeta, h Hit) string {
 	if i := strings.IndexAny(msg, ":'"); i > 0 {
 		msg = msg[:i]
 	}
+	if sc.TokVerbose && strings.Contains(h.Entry, " near '") {
+		// by design (known finding): with -d the tokenizer's errors carry the token next to the syntax error
+		return "log-leak-unparseable:debug-tokenizer-verbose"
+	}
 	cls := sc.Dialect + "-session-leak:" + what + ":" + slug(msg)
 	if h.Field != "" {
 		cls += ":" + slug(h.Field)
 	}
 	return cls
+}
+
+// siteVerdict caches the model's answer per (level, message).
+var siteVerdict = map[string]string{}
+
+// checkSite: every entry a real session produced must be explained by a call site of the regenerated table
+// (Generated/LogSites.lean, matched by Sql.LogSites.sitesOf): a log call that fires without being in the table is code
+// on the query path that the static facts do not cover.
+func checkSite(r *core.Run, sc *Script, site string) {
+	i := strings.IndexByte(site, '|')
+	level, msg := site[:i], site[i+1:]
+	v, ok := siteVerdict[site]
+	if !ok {
+		v = r.ModelOnly("C16.logsite " + level + " " + hexS(msg))
+		siteVerdict[site] = v
+	}
+	if strings.HasPrefix(v, "known ") {
+		return
+	}
+	r.Fail("log-site-not-in-table:"+slug(msg), fmt.Sprintf("a %s session logged %q at level %s, which no call site of the regenerated table (Generated/LogSites.lean) explains: model says %q", sc.Dialect, trunc(msg), level, v))
 }
